@@ -401,6 +401,19 @@ def c08(s):
                 half_ok = e.timeout != -1 and now >= e.refreshed + quot(e.timeout - e.refreshed, 2)
                 if not (now >= e.expire - LEEWAY or half_ok):
                     out.append(("c08-early-auto-refresh", "automatic refresh earlier than 5 min before expiry / half-life", {"thread": t.tid}))
+        # the record stored after an accepted grant carries the lifetime the provider granted THEN (not an older, longer one)
+        for (gi, gop, gnow) in grants:
+            if gop[2] != 1:
+                continue
+            tau = [tt for (pi, tt, _) in s.provider if pi < gi][-1]
+            for (j, op, _, _) in t.ops:
+                if j > gi and op[0] == 2 and op[2] == 1:
+                    e = s.snaps[j][0].get(t.k)
+                    if e is not None and e.dek == t.dek and e.expire > gnow + tau * SEC:
+                        out.append(("c08-stored-expiry-beyond-granted-lifetime",
+                                    "after a refresh the stored token expiry lies beyond what the provider granted (expires_in %d s at the grant)" % tau,
+                                    {"thread": t.tid, "event_index": j}))
+                    break
         if e0 is None or e0.dek != t.dek or not s.sequential(t) or t.faulted or t.cancelled or t.outcome is None:
             continue
         now0 = t.spawn_now
